@@ -175,6 +175,9 @@ func init() {
 			"- a\r\n  - b\r\n\r\n- c",
 			"\n\n- a\n   \n  - b\n",
 			"- gtree\n\t- cmd\n\t\t- gtree\n\t\t\t- main.go\n\t- Makefile\n",
+			"\xef\xbb\xbf- a\n  - b\n",  // UTF-8 byte order mark
+			"- a\x00b\n  - \x00\n- c\n", // NUL bytes
+			"\xff\xfe-\x00 \x00a\x00\n\x00", // UTF-16 text given by mistake
 		}
 		for _, s := range seeds {
 			for pos := 0; pos <= len(s); pos++ {
